@@ -15,7 +15,8 @@ Decisions are three-valued: +1 / -1 / 0 (= within the near-boundary band, not ju
 Main entry points: rot, euler_zxy, Part, Solid, inset (LP), contact_s (LP), overlap_verdict,
 contained_convex / contained_cells, mesh_distance (exhaustive triangle pairs, exactly pruned),
 points_in_mesh (ray parity), polycube (generator-side construction of non-convex solids),
-view_volume_test (analytic view volume).  `selftest()` must be called once per process.
+view_angles / in_view_volume (analytic view volume).  `selftest()` must be called once per
+process (it is idempotent).
 """
 
 from __future__ import annotations
